@@ -128,12 +128,12 @@ type lockFacts struct {
 }
 
 type LockAnalysis struct {
-	P        *Prog
-	cg       *callgraph.Graph
-	facts    map[*ssa.Function]*lockFacts
-	entry    map[*ssa.Function]lockState
+	P         *Prog
+	cg        *callgraph.Graph
+	facts     map[*ssa.Function]*lockFacts
+	entry     map[*ssa.Function]lockState
 	entryBusy map[*ssa.Function]bool
-	summary  map[*ssa.Function]map[string]lockMode
+	summary   map[*ssa.Function]map[string]lockMode
 }
 
 func NewLockAnalysis(p *Prog, cgKind string) *LockAnalysis {
